@@ -254,7 +254,8 @@ class Gen:
             self.site("span", [filler, ("literal", "=", ty), ("ident", "=", "bool")])
             self.site(rng.choice(list(EVENT_SHORT)), [("dotted", "=", ty), filler], msg=rng.choice([None, "lit", "fmt"]))
         # 3. every macro x prefix combination, with varied field lists
-        prefixes = [(), ("target",), ("parent",), ("parent_none",), ("target", "parent"), ("name",), ("name", "target"), ("name", "target", "parent")]
+        prefixes = [(), ("target",), ("parent",), ("parent_none",), ("target", "parent"), ("name",), ("name", "target"), ("name", "target", "parent"),
+                    ("name", "parent"), ("name", "parent_none"), ("target", "parent_none")]
         for macro in ["event", "span"] + list(EVENT_SHORT) + list(SPAN_SHORT):
             for pf in prefixes:
                 if "name" in pf and (macro == "span" or macro in SPAN_SHORT):
